@@ -524,8 +524,8 @@ def real_mol_route(ctx, name):
     and the set of (object, key) whose value became 12345 — object in {'mol', 'mtop', 'atop', 'agro'}"""
     mol = _scratch_molecule(ctx)
     d = object.__getattribute__(mol, "__dict__")
-    top = d["_molecule_top"]
-    residues = list(d["_residues"])
+    top = d["_molecule_top"] if "_molecule_top" in d else mol.molecule_top
+    residues = list(d["_residues"] if "_residues" in d else mol.residues)
     exc = None
     try:
         with warnings.catch_warnings():
